@@ -67,6 +67,10 @@ PeerEOF == /\ sent = WireLen /\ ~eof /\ eof' = TRUE
 \* called without the body having been read, no 100 is sent; afterwards the server must either skip the body or close
 Denied(i) == cfg.deny /\ reqs[i].expect100
 
+\* a streamed body over the configured limit is not rejected (the handler gets the stream); the server need not keep
+\* its read position inside such a request (hertz's prefetch takes whatever is buffered) but must then close
+Over(i) == cfg.streaming /\ reqs[i].big
+
 \* bytes that must have arrived before the handler of request i can be called
 Need(i) == IF cfg.streaming \/ Denied(i) THEN reqs[i].headEnd ELSE reqs[i].end
 
@@ -101,7 +105,7 @@ SendInterim == /\ phase = "idle" /\ cur <= N /\ ~MustReject(cur) /\ reqs[cur].ex
 Handle(newrd) ==
     /\ phase = "idle" /\ cur <= N /\ ~MustReject(cur)
     /\ sent >= (IF reqs[cur].partial THEN reqs[cur].headEnd ELSE Need(cur))
-    /\ newrd <= sent /\ reqs[cur].headEnd <= newrd /\ newrd <= reqs[cur].end
+    /\ newrd <= sent /\ reqs[cur].headEnd <= newrd /\ (newrd <= reqs[cur].end \/ Over(cur))
     /\ (~cfg.streaming /\ ~Denied(cur)) => newrd = reqs[cur].end
     /\ Denied(cur) => newrd = reqs[cur].headEnd
     /\ rd' = newrd /\ cons' = 0
@@ -117,7 +121,7 @@ StreamRead(k) ==
     /\ k >= 1 /\ cons + k <= BodyLen(cur)
     /\ cons' = cons + k
     \* the wire position of those bytes must have been delivered (chunk framing included: rd moves at least as far)
-    /\ \E newrd \in rd .. reqs[cur].end : newrd <= sent /\ rd' = newrd
+    /\ \E newrd \in rd .. (IF Over(cur) THEN sent ELSE reqs[cur].end) : newrd <= sent /\ rd' = newrd
     /\ UNCHANGED <<reqs, cfg, sent, eof, phase, cur, interim, hlog, out, topen, pairReq, tlog>>
 
 HandleEnd == /\ phase = "handle" /\ phase' = "write"
@@ -136,7 +140,9 @@ LastClose == out[Len(out)].close
 \* after the response: close, or skip the unread rest of a streamed body and go on with the next request
 \* the connection must be closed after a response when the request or the handler asked for it, or when the
 \* response announced it
-MustClose == LastClose \/ reqs[cur].close \/ reqs[cur].hclose \/ reqs[cur].partial \/ cfg.nokeep   \* nokeep: option DisableKeepalive
+MustClose == \/ LastClose \/ reqs[cur].close \/ reqs[cur].hclose \/ reqs[cur].partial
+             \/ cfg.nokeep                  \* option DisableKeepalive
+             \/ rd > reqs[cur].end          \* bytes behind the request were consumed (only possible when Over(cur))
 CloseAfter == /\ phase = "after" /\ MustClose
               /\ phase' = "closed"
               /\ UNCHANGED <<reqs, cfg, sent, eof, rd, cur, cons, interim, hlog, out, topen, pairReq, tlog>>
@@ -195,7 +201,7 @@ TypeOK == /\ sent \in 0 .. WireLen /\ rd \in 0 .. WireLen /\ cur \in 1 .. N + 1
 CursorSync == phase = "idle" => rd = (IF cur <= N THEN reqs[cur].start ELSE WireLen)
 \* C01/C14: nothing is consumed that was not delivered, and never beyond the current request
 NoOverread == /\ rd <= sent
-              /\ phase \in {"handle", "write", "after"} => (reqs[cur].headEnd <= rd /\ rd <= reqs[cur].end)
+              /\ phase \in {"handle", "write", "after"} => (reqs[cur].headEnd <= rd /\ (rd <= reqs[cur].end \/ Over(cur)))
 \* C01: handlers run once per request, in order
 OncePerRequest == hlog = [k \in 1 .. Len(hlog) |-> k]
 \* C01: one final response per handled request, same order, written after its handler ran
